@@ -23,7 +23,18 @@
 (*            different classes (a detector re-scoring annotations and     *)
 (*            keeping their ids).  Sources are predictions and targets are *)
 (*            annotations, so Valid stays per side and ignores pu.         *)
-(*            Further pairings: "copy_features" / "copy_rec_tag" -- the    *)
+(*            al / pl: the sound_events LIST of the clip annotation / clip *)
+(*            prediction as written: annotation numbers in listed order,   *)
+(*            Range(al) = 1..na.  A list may hold the same event twice     *)
+(*            (rc = FALSE: the same object, TRUE: an equal copy).  Reading *)
+(*            of "mention every annotated and every predicted sound event  *)
+(*            exactly once": one mention per DISTINCT annotated event -- an*)
+(*            event listed twice is still one annotated event, and two     *)
+(*            matches on it would mention it twice.  So Valid is decided on*)
+(*            the sets 1..na / 1..np and ignores al / pl / rc.             *)
+(*            Further pairings: "twin" -- another clip (another uuid) over *)
+(*            the very same span of the same recording: NOT the same clip; *)
+(*            "copy_features" / "copy_rec_tag" -- the    *)
 (*            predicted clip is a later-enriched COPY of the annotated clip*)
 (*            (same uuid, recording and times; clip features added / a tag *)
 (*            added to its copy of the recording).  What identifies a clip *)
@@ -88,10 +99,12 @@ StoredOK(c, st) ==
 
 (* ------------------------------- clauses --------------------------------- *)
 Clauses == {"ConstructIffValid", "PathsAgree", "StoredWithinBounds"}
+\* the lists of a clip evaluation case name exactly the annotated / predicted events
+CaseOK(c) == c.kind = "ce" => (Range(c.al) = 1..c.na /\ Range(c.pl) = 1..c.np)
 Holds(cl, o) ==
     LET c == o.in  ps == o.out.paths IN
     IF ~Judged(c) THEN TRUE
-    ELSE CASE cl = "ConstructIffValid"  -> \A p \in DOMAIN ps : ps[p].built <=> Valid(c)
+    ELSE CASE cl = "ConstructIffValid"  -> CaseOK(c) /\ \A p \in DOMAIN ps : ps[p].built <=> Valid(c)
            [] cl = "PathsAgree"         -> Len(ps) = Len(Paths) /\ \A p, q \in DOMAIN ps : ps[p].built = ps[q].built
            [] cl = "StoredWithinBounds" -> \A p \in DOMAIN ps : ps[p].built => StoredOK(c, ps[p].stored)
 
